@@ -325,6 +325,16 @@ var topRules = []topRule{
 	{name: "if-branches-after-returning-branch", good: "fn f(n: int) -> int { if n == 0 { return 0; } else if n == 1 { 1 } else { 2 } }\nfn main() { println(f(1)); }\n", bad: "fn f(n: int) -> int { if n == 0 { return 0; } else if n == 1 { \"one\" } else { 2 } }\nfn main() { println(f(1)); }\n"},
 	{name: "if-use-after-returning-branch", good: "fn f(n: int) -> int { let v = if n == 0 { return 0; } else { 5 }; v + 1 }\nfn main() { println(f(1)); }\n", bad: "fn f(n: int) -> int { let v = if n == 0 { return 0; } else { 5 }; v + \"s\" }\nfn main() { println(f(1)); }\n"},
 	{name: "try-catch-after-returning-body", good: "fn f(n: int) -> int { let v = try { if n == 0 { return 0; } 3 } catch e { 4 }; v + 1 }\nfn main() { println(f(1)); }\n", bad: "fn f(n: int) -> int { let v = try { if n == 0 { return 0; } 3 } catch e { \"s\" }; v + 1 }\nfn main() { println(f(1)); }\n"},
+	// signatures spelt with a declared type name are checked like any other signature
+	{name: "alias-parameter-argument", good: "type Celsius = float;\nfn offset(base: Celsius, d: float) -> Celsius { base + d }\nfn main() { println(offset(1.0, 2.0)); }\n", bad: "type Celsius = float;\nfn offset(base: Celsius, d: float) -> Celsius { base + d }\nfn main() { println(offset(\"warm\", 2.0)); }\n"},
+	{name: "alias-return-statement", good: "type Celsius = float;\nfn f(c: bool) -> Celsius { if c { return 1.5; } 2.5 }\nfn main() { println(f(true)); }\n", bad: "type Celsius = float;\nfn f(c: bool) -> Celsius { if c { return \"hot\"; } 2.5 }\nfn main() { println(f(true)); }\n"},
+	{name: "alias-result-use", good: "type Celsius = float;\nfn f() -> Celsius { 2.5 }\nfn main() { let x: float = f(); println(x + 1.0); }\n", bad: "type Celsius = float;\nfn f() -> Celsius { 2.5 }\nfn main() { let x: str = f(); println(x); }\n"},
+	{name: "alias-object-parameter", good: "type P = { x: int };\nfn f(p: P) -> int { p.x }\nfn main() { println(f(new { x: 1 })); }\n", bad: "type P = { x: int };\nfn f(p: P) -> int { p.x }\nfn main() { println(f(new { y: 1 })); }\n"},
+	{name: "alias-list-parameter", good: "type L = [int];\nfn f(l: L) -> int { l.len() }\nfn main() { println(f([1])); }\n", bad: "type L = [int];\nfn f(l: L) -> int { l.len() }\nfn main() { println(f([\"s\"])); }\n"},
+	{name: "alias-parameter-arity", good: "type Id = int;\nfn f(a: Id, b: Id) -> Id { a + b }\nfn main() { println(f(1, 2)); }\n", bad: "type Id = int;\nfn f(a: Id, b: Id) -> Id { a + b }\nfn main() { println(f(1)); }\n"},
+	{name: "alias-declared-after-function", good: "fn f(a: Id) -> Id { a + 1 }\ntype Id = int;\nfn main() { println(f(1)); }\n", bad: "fn f(a: Id) -> Id { a + 1 }\ntype Id = int;\nfn main() { println(f(\"s\")); }\n"},
+	{name: "alias-function-value", good: "type Id = int;\nfn k(a: Id) -> Id { a }\nfn g(h: fn(a: int) -> int) -> int { h(1) }\nfn main() { println(g(k)); }\n", bad: "type Id = str;\nfn k(a: Id) -> Id { a }\nfn g(h: fn(a: int) -> int) -> int { h(1) }\nfn main() { println(g(k)); }\n"},
+	{name: "alias-trigger-callback", good: "import trigger minute from triggers;\ntype Secs = int;\nevent fn cb(elapsed: Secs) {}\nfn main() { trigger cb at minute(1); }\n", bad: "import trigger minute from triggers;\ntype Secs = str;\nevent fn cb(elapsed: Secs) {}\nfn main() { trigger cb at minute(1); }\n"},
 	// a type name declared again in an inner scope: the innermost declaration is the one a name refers to
 	{name: "type-shadowed-in-function", good: "type Id = int;\nfn main() { type Id = str; let label: Id = \"device\"; println(label); }\n", bad: "type Id = int;\nfn main() { type Id = str; let label: Id = 42; println(label); }\n"},
 	{name: "type-shadowed-in-block", good: "fn main() { type Id = int; let a: Id = 1; { type Id = str; let b: Id = \"s\"; println(b); } println(a); }\n", bad: "fn main() { type Id = int; let a: Id = 1; { type Id = str; let b: Id = 2; println(b); } println(a); }\n"},
